@@ -43,11 +43,6 @@ func main() {
 		res.SetExtra("phase_seconds", map[string]float64{"hash_correspondence": t1.Sub(t0).Seconds(), "fixtures": time.Since(t1).Seconds()})
 	}
 
-	// phase "json": feeder JSON -> sn2core -> SanityCheckNewHeight on real fixture blocks
-	tJSON := time.Now()
-	runJSONTamper(f, res)
-	res.SetExtra("json_phase_seconds", time.Since(tJSON).Seconds())
-
 	// phase "wide": position-exhaustive tampering around multiples of the worker count (alone:
 	// it changes GOMAXPROCS)
 	tWide := time.Now()
@@ -69,6 +64,15 @@ func main() {
 	// two passes: everything that cannot crash the process first; the result file is checkpointed
 	// before the nil-dereference tamperings of the second pass
 	for _, risky := range []bool{false, true} {
+		if risky {
+			// phase "json" (feeder JSON -> sn2core -> SanityCheckNewHeight on real fixture blocks) also
+			// contains nil-producing tamperings (a transaction version switched in the JSON): after
+			// the checkpoint as well
+			tJSON := time.Now()
+			runJSONTamper(f, res)
+			res.SetExtra("json_phase_seconds", time.Since(tJSON).Seconds())
+			checkpoint(f, res)
+		}
 		var tasks []chainTask
 		for c := 0; c < nChains; c++ {
 			for _, dstNew := range []bool{false, true} {
